@@ -35,19 +35,53 @@ func Thorough() bool                        { panic("sym") }
 func Seed() int64                           { panic("sym") }
 func Bound(name string, v int)              { panic("sym") } // "unwind", "slice-len", "max-paths"
 func Option(name string)                    { panic("sym") }
+func Stub(fullFuncName string)               { panic("sym") } // replace a callee by "any result of its type" (listed in evidence)
 func Note(assumption string)                { panic("sym") } // echoed under assumptions in the evidence file
+
+// Branch-free connectives for specifications (Go's && || and if fork the symbolic execution; these do not).
+func And(bs ...bool) bool {
+	for _, b := range bs {
+		if !b {
+			return false
+		}
+	}
+	return true
+}
+func Or(bs ...bool) bool {
+	for _, b := range bs {
+		if b {
+			return true
+		}
+	}
+	return false
+}
+func Implies(a, b bool) bool { return !a || b }
+func IteZ(c bool, a, b Z) Z {
+	if c {
+		return a
+	}
+	return b
+}
+func IteU(c bool, a, b uint64) uint64 {
+	if c {
+		return a
+	}
+	return b
+}
 
 // ---- environment ----
 func Wire(dst interface{})                                     { panic("sym") } // *dst := the real keeper struct wired over the environment model
 func Ctx() sdk.Context                                         { panic("sym") } // context over a lazily havocked (arbitrary) pre-state
 func ClosedCtx() sdk.Context                                   { panic("sym") } // same context, closed world: unseeded keys are absent
 func EmptyCtx() sdk.Context                                    { panic("sym") } // a fresh empty closed store
+func ClosePrefix(store string, prefix []byte)                 { panic("sym") } // the table under prefix holds exactly what the harness seeds
 func Mark()                                                    { panic("sym") }
 func ModuleAddr(name string) sdk.AccAddress                    { panic("sym") }
 func Balance(ctx sdk.Context, a sdk.AccAddress, denom string) sdkmath.Int { panic("sym") }
 func BalanceDelta(a sdk.AccAddress, denom string) sdkmath.Int  { panic("sym") } // since Mark
 func SetBalance(a sdk.AccAddress, denom string, v sdkmath.Int) { panic("sym") }
 func BankTouched(a sdk.AccAddress, denom string) bool          { panic("sym") }
+func OnlyWritten(store string, prefix []byte, keys ...[]byte) bool { panic("sym") } // all writes since Mark under prefix hit one of keys
 func BankWritesSinceMark() int                                 { panic("sym") }
 func Supply(denom string) sdkmath.Int                          { panic("sym") }
 func SupplyDelta(denom string) sdkmath.Int                     { panic("sym") }
